@@ -776,7 +776,19 @@ theorem live_reachable {n max njobs : Nat} {o : Bool} {s : St} (hn : 1 ≤ n) (h
   · rfl
   · dsimp only; split <;> simp
 
-theorem step_params {s s' : St} {l : Lbl} (hs : step s l = some s') : s'.max = s.max ∧ s'.cl.size = s.cl.size := by
+@[simp] theorem signalPool_ordered (s : St) (k : Nat) : (signalPool s k).ordered = s.ordered := by
+  unfold signalPool; split
+  · rfl
+  · dsimp only; split <;> simp
+@[simp] theorem signalPool_njobs (s : St) (k : Nat) : (signalPool s k).njobs = s.njobs := by
+  unfold signalPool; split
+  · rfl
+  · dsimp only; split <;> simp
+@[simp] theorem signalThr_njobs (s : St) (t : Nat) : (signalThr s t).njobs = s.njobs := rfl
+@[simp] theorem signalRq_njobs (s : St) (c : Nat) : (signalRq s c).njobs = s.njobs := rfl
+
+theorem step_params {s s' : St} {l : Lbl} (hs : step s l = some s') :
+    s'.max = s.max ∧ s'.cl.size = s.cl.size ∧ s'.ordered = s.ordered ∧ s'.njobs = s.njobs := by
   cases l with
   | spurious w =>
     cases w <;> simp only [step] at hs <;> split at hs <;>
@@ -801,10 +813,12 @@ theorem step_params {s s' : St} {l : Lbl} (hs : step s l = some s') : s'.max = s
       all_goals first | (injection hs with hs; subst hs; simp) | (simp at hs)
 
 theorem params_reachable {n max njobs : Nat} {o : Bool} {s : St} (hr : Reachable n max njobs o s) :
-    s.max = max ∧ s.cl.size = n := by
+    s.max = max ∧ s.cl.size = n ∧ s.ordered = o ∧ s.njobs = njobs := by
   induction hr with
-  | init => exact ⟨rfl, by simp [init]⟩
-  | step _ hs ih => have := step_params hs; exact ⟨this.1.trans ih.1, this.2.trans ih.2⟩
+  | init => exact ⟨rfl, by simp [init], rfl, rfl⟩
+  | step _ hs ih =>
+    have := step_params hs
+    exact ⟨this.1.trans ih.1, this.2.1.trans ih.2.1, this.2.2.1.trans ih.2.2.1, this.2.2.2.trans ih.2.2.2⟩
 
 /-! ### who can take a step -/
 def enabled (s : St) (w : Who) : Prop := (step s (.run w 0)).isSome = true
